@@ -158,6 +158,41 @@ def objects(ctx):
                     if back != obj:
                         st.violation(f"C05/json-roundtrip-differs/{cls.__name__}", {"seed": s.hex()[:200]}, repr(back)[:100], repr(obj)[:100])
             st.outcomes[name] += 1
+    # objects no parser produces but the constructors accept: a header time spelled in another zone is the same instant
+    from datetime import datetime, timedelta, timezone
+
+    from btclib.block import Block, BlockHeader
+    from models.build import block_from, coinbase_tx
+    blk0 = block_from([coinbase_tx(1, [b"\x51"])], mine=False)
+    h0 = blk0.header
+    for minutes in (0, 60, 120, -300, 330, 840, -720, 1):
+        tz = timezone(timedelta(minutes=minutes))
+        st.evals += 1
+        st.nontrivial += 1
+        case = {"utc_offset_minutes": minutes}
+        try:
+            t = h0.time.astimezone(tz)
+            h = BlockHeader(h0.version, h0.previous_block_hash, h0.merkle_root, t, h0.bits, h0.nonce, check_validity=False)
+        except errs as e:
+            st.outcomes[("zone-refused", minutes)] += 1
+            continue
+        if h.serialize(check_validity=False) != h0.serialize(check_validity=False) or h.hash != h0.hash:
+            st.violation("C05/header-time-zone/serialization-depends-on-zone", case, h.serialize(check_validity=False).hex()[136:144], h0.serialize(check_validity=False).hex()[136:144])
+        for cv in (False,):
+            try:
+                back = BlockHeader.from_dict(json.loads(json.dumps(h.to_dict(check_validity=cv))), check_validity=cv)
+            except errs as e:
+                st.violation("C05/header-time-zone/json-roundtrip-refused", case, repr(e)[:80], "equal header")
+                continue
+            if back.serialize(check_validity=False) != h.serialize(check_validity=False) or back.hash != h.hash or back != h:
+                st.violation("C05/header-time-zone/json-roundtrip-differs", case, str(back.time), str(h.time))
+            blk = Block(h, blk0.transactions, check_validity=False)
+            try:
+                bback = Block.from_dict(json.loads(json.dumps(blk.to_dict(check_validity=False))), check_validity=False)
+                if bback.header.hash != h.hash:
+                    st.violation("C05/header-time-zone/block-json-roundtrip-differs", case, str(bback.header.time), str(h.time))
+            except errs as e:
+                st.violation("C05/header-time-zone/block-json-roundtrip-refused", case, repr(e)[:80], "equal block")
     # every vendored valid PSBT (BIP174/370/371/373/375): JSON round trip of the whole and of each map
     from btclib.psbt import Psbt
     from models import psbt_map_ref as PM
